@@ -12,7 +12,7 @@ TECH = "Coq proof over a Gallina model + vm_compute model/implementation corresp
 SPEC = {
     "C01": ("Kernel-checked theorems: the model evaluator equals the expected terminal payoff (leaf sum) for every profile; under WFgame + PerfectRecall + ChanceOK (what from_root guarantees, C11) the best-response value is an upper bound over every behavioural deviation and is attained by a pure strategy, so each reported regret is exactly the largest unilateral gain, non-negative, total = max; zero regret iff equilibrium. Correspondence of get_info with the model at binary64 + independent exhaustive best-response oracle as monitor.", "7 (C01)", ""),
     "C02": ("Kernel-checked CFR theorem on the model: regret decomposition into the model's own cumulative counterfactual regrets, average-strategy realisation under perfect recall, best response (C01): for every accepted game, budget and stop predicate the returned total bound >= true regret of the returned profile, player bounds >= 0, early stop => true regret below the threshold; with C03 the true-regret rate for vanilla; threads by C06. Correspondence of solve(Full, vanilla) + monitor bound >= true regret (get_info and independent exhaustive best response).", "7 (C02)", "Rounding: the theorem is over R; the monitor allows 1e-9 relative slack. "),
-    "C03": ("Kernel-checked CFR rate of the returned bounds for EVERY parameter set, oracle, budget and stop predicate: b_pl <= 2*D*N*sqrt(A)/sqrt(T) (regret-matching potential, counterfactual mass <= 1 under perfect recall, increments bounded by the payoff range), every prefix; clause 2 for vanilla via C02. Correspondence + monitors of both envelopes on adversarial games.", "7 (C03)", "PARTIAL: the true-regret rate for lcfr/cfr_plus/dcfr/dcfr_prune (Brown-Sandholm 2019) is not proved; it is decided by the monitor. "),
+    "C03": ("Kernel-checked CFR rate of the returned bounds for EVERY parameter set, oracle, budget and stop predicate: b_pl <= 2*D*N*sqrt(A)/sqrt(T) (regret-matching potential, counterfactual mass <= 1 under perfect recall, increments bounded by the payoff range), every prefix; clause 2 proved for vanilla (via C02) and for lcfr (weighted decomposition; for lcfr only b1+b2 dominates, max(b1,b2) refuted). Correspondence + monitors of both envelopes on adversarial games.", "7 (C03)", "PARTIAL: the true-regret rate for cfr_plus/dcfr/dcfr_prune (Brown-Sandholm 2019) is not proved; it is decided by the monitor. "),
     "C04": ("PARTIAL. Kernel-checked pathwise facts with every sampling decision universally quantified: the bounds returned by the chance-sampled and external-sampled solvers obey 2*D*N*sqrt(A)/sqrt(T) for every oracle (in range), params, budget, stop predicate, thread target and schedule; one-step unbiasedness of the sampled regret increments (finite expectation over one draw per infoset) when no chance infoset repeats on a path, refuted otherwise. Correspondence under pinned draws + statistical monitor under seeded weight-honouring sampling.", "7 (C04)", "PARTIAL: the concentration step (high-probability bound on the TRUE regret) and the empirical sentence are decided statistically, not proved. Known finding: a chance infoset repeated on one path makes the sampled solvers converge on a different game (listed). "),
     "C05": ("Kernel-checked invariants of the solver model for every method, oracle, parameter set, budget and stop predicate "
             "(every strategy row is a distribution, cum_strat >= 0, returned profile valid, bounds non-negative and None iff no "
@@ -39,7 +39,7 @@ SPEC = {
     "C14": ("Kernel-checked agreement of the hash-based and scan-based import models for every input + result/ok-iff theorems + "
             "correspondence with an independent oracle.", "7 (C14)", ""),
     "C15": ("Model of the binary's pipeline after text parsing (json/gambit readers, Output assembly) executed against the shipped binary; kernel-checked: the printed numbers are get_info of the printed profile, for constant-sum Gambit files the utilities are each player's own expected payoff on the game as written and add up to the constant, printed strategies are valid rows with every name once. End-to-end monitor: printed strategies re-evaluated on the file-level game by an independent Python evaluator; -m full outputs vs library vs model.", "7 (C15)", "Text parsing (serde_json, gambit-parser), clap and I/O are dependencies, not modelled. "),
-    "C16": ("Kernel-checked clip decision (pruned iff strictly lower regret, printed profile valid for every threshold incl. NaN/inf, never worse) + end-to-end correspondence of the binary with the library and the model over the option space (presets, budgets incl. -t 0, thresholds, threads, routes, formats, twin JSON/Gambit encodings).", "7 (C16)", "Option plumbing (clap), route and format equivalences are decided by the differential check, not by a theorem. "),
+    "C16": ("Kernel-checked clip decision (pruned iff strictly lower regret, printed profile valid for every threshold incl. NaN/inf, never worse) + end-to-end correspondence of the binary with the library and the model over the option space (presets, budgets incl. -t 0, thresholds, threads, routes, formats); kernel-checked agreement of the JSON and Gambit reader models on two encodings of one game.", "7 (C16)", "Option plumbing (clap), route and format equivalences are decided by the differential check, not by a theorem. "),
     "C17": ("Kernel-checked semantic rejection layer of the reader model (total, a rejection yields no game, not-constant-sum iff the 0.1% rule, duplicate-infosets iff numeric clash or shared name per player with separate name spaces, game error iff from_root refuses) executed against the binary on the same parsed files + corruption stream on the shipped binary (exit status, documented anchors, no output).", "7 (C17)", "PARTIAL: malformed bytes / missing fields / player count are rejected by the dependencies' parsers; that part is a test with generator-computed expectations. "),
     "C18": ("Kernel-checked theorems over the real-number instance of the model of Strategies::truncate (validity for every "
             "threshold incl. NaN/inf via arbitrary predicates, exact support and proportional rescaling, nothing-above branch, "
